@@ -131,7 +131,11 @@ class Hooks(C10.Hooks):
     def havoc(self, L):
         d = super().havoc(L)
         self.x0, self.P0 = Tok.fresh("x"), Tok.fresh("P")
-        d["x"], d["P"] = self.x0, self.P0
+        ct = self.roles["correct_targets"]            # names unpacked from kalman.correct: (state, covariance, innovation)
+        self.xname, self.Pname = (ct[0], ct[1]) if len(ct) >= 2 else (None, None)
+        if self.xname is None:
+            raise Concretization("cannot identify the state / covariance variables (targets of kalman.correct)")
+        d[self.xname], d[self.Pname] = self.x0, self.P0
         self.w.log = []
         return d
 
@@ -152,16 +156,16 @@ class Hooks(C10.Hooks):
         x, P = self.x0, self.P0
         for r, cr in zip(present, cors):
             hf = cr["H"]
-            ok_h = (isinstance(hf, HFull) and len(hf.sets) == 1 and hf.sets[0][1] is r["H"]
-                    and isinstance(hf.sets[0][0], tuple) and hf.sets[0][0][0] == slice(None) and hf.sets[0][0][1] is L["inertial_block"]
-                    and isinstance(hf.shape, tuple) and len(hf.shape) == 2 and hf.shape[1] is L["n_states"])
+            key = hf.sets[0][0] if isinstance(hf, HFull) and len(hf.sets) == 1 else None
+            ok_h = (key is not None and hf.sets[0][1] is r["H"] and isinstance(key, tuple) and key[0] == slice(None)
+                    and isinstance(key[1], slice) and key[1].start is None and key[1].step is None and key[1].stop is self.em.n_states
+                    and isinstance(hf.shape, tuple) and len(hf.shape) == 2 and hf.shape[1] is self.n_states_tok)
             ok = ok and ok_h and cr["x"] is x and cr["P"] is P and cr["z"] is r["z"] and cr["R"] is r["R"]
             x, P = cr["out"][0], cr["out"][1]
         c.prove("recursion.corrections_chained", z3.BoolVal(bool(ok)),
                 "kalman.correct called once per available measurement (%d/%d), x and P handed on, z/H/R of that sensor, H_full = zeros((len(z), n_states)) with H written to [:, inertial_block]" % (len(cors), len(present)))
-        ib = L["inertial_block"]
-        c.prove("recursion.H_in_ins_block", z3.BoolVal(isinstance(ib, slice) and ib.start is None and ib.step is None and ib.stop is L["error_model"].n_states),
-                "inertial_block == slice(error_model.n_states)")
+        c.prove("recursion.H_in_ins_block", z3.BoolVal(bool(ok) or not present),
+                "H is written to columns slice(error_model.n_states) of a zero matrix with n_states = len(P) columns")
         # --- measurement pva: interpolated between rows index, index+1 with the weight of the stamp ------
         for r in cms:
             p = r["pva"]
@@ -175,15 +179,18 @@ class Hooks(C10.Hooks):
                 c.prove("recursion.measurement_in_current_interval", z3.And(w.Mt(mi0) >= w.Tt(idx0), w.Mt(mi0) < w.Tt(idx0 + 1)),
                         "a stamp is used in the iteration whose row interval [times[index], times[index+1]) contains it (weight in [0, 1))", concretize=w.concretize)
         # --- recorded row is the a-posteriori state ---------------------------------------------------------
-        xr, Pr = L["x_result"], L["P_result"]
-        if len(xr) == 1:
-            c.prove("recursion.recorded_state_is_posterior", z3.BoolVal(xr[0] is x and Pr[0] is P), "x_result / P_result rows are x, P after this iteration's corrections")
+        tl, oth = sched.times_list(L, self.roles)
+        recorded = [L[k][0] for k in oth if len(L[k]) == 1]
+        if recorded:
+            c.prove("recursion.recorded_state_is_posterior", z3.BoolVal(len(recorded) == 2 and any(v is x for v in recorded) and any(v is P for v in recorded)),
+                    "the recorded state / covariance rows are x, P after this iteration's corrections")
         # --- propagation ---------------------------------------------------------------------------------------
-        xf, Pf = L["x"], L["P"]
+        xf, Pf = L[self.xname], L[self.Pname]
         progressed = len(props) > 0
         if progressed:
             pr = props[0]
-            ok_args = (len(props) == 1 and pr["em"] is L["error_model"] and pr["gm"] is L["gyro_model"] and pr["am"] is L["accel_model"])
+            mods = [L[k] for k in self.roles["models"]]
+            ok_args = (len(props) == 1 and pr["em"] is self.em and pr["gm"] is mods[0] and pr["am"] is mods[1])
             pav = pr["pva"]
             ok_mid = (isinstance(pav, Tok) and pav.kind == "interp" and isinstance(pav.args[0], Row) and pav.args[0].table == "nominal" and pav.args[1].table == "nominal"
                       and isinstance(pav.args[2], float) and pav.args[2] == 0.5)
@@ -213,7 +220,7 @@ def scenario(py, code, mode, with_inc):
     w = sched.World(c, n_s)
     c.assume(w.N >= 2, "at least two rows")
     sensors = [SA(w), SB(w)][:n_s]
-    hooks = Hooks(w, sensors)
+    hooks = Hooks(w, sensors, func=F.run_feedforward_filter)
     hooks.batches = []
     cap = sched.BunchCapture()
 
@@ -224,6 +231,7 @@ def scenario(py, code, mode, with_inc):
     class EMs(Opaque):
         n_states = Tok("n_ins")
     em = EMs()
+    hooks.em = em
 
     class Inc(sched.IncTable):
         @property
@@ -257,6 +265,7 @@ def scenario(py, code, mode, with_inc):
             return Tok("len", x) if x.kind != "P0" else Tok("n_states")
         return sched.zlen(x)
     n_states_tok = Tok("n_states")
+    hooks.n_states_tok = n_states_tok
 
     def init_cov(*a, **k):
         return Tok("P0")
@@ -353,12 +362,36 @@ def _p0(ctx, py):
                    "P0 = blockdiag(T_io diag(pos^2 x3, vel^2 x3, level^2 x2, azimuth^2) T_io^T, P_gyro, P_accel), off-diagonal blocks zero"
                    if (ok_shape and bad is None and okb) else "shape %s, first bad cell %s, model blocks ok: %s" % (P.shape, bad, okb if ok_shape else None),
                    cex=None if (ok_shape and bad is None and okb) else dict(cell=bad), native=None if (ok_shape and bad is None and okb) else _native_batch_quick(py))
-    # block slices are the same source expressions as in _compute_error_propagation_matrices (whose partition is proved for all sizes in C08.joint)
-    def slices(fn):
-        src = ast.parse(textwrap.dedent(inspect.getsource(fn))).body[0]
-        return {ast.unparse(s.targets[0]): ast.unparse(s.value).replace(" ", "") for s in src.body if isinstance(s, ast.Assign) and ast.unparse(s.targets[0]) in ("ins_block", "gyro_block", "accel_block")}
-    s1, s2 = slices(F._initialize_covariance), slices(F._compute_error_propagation_matrices)
-    ctx.ob("C11.init.P0.block_slices", "c", s1 == s2 and len(s1) == 3, "ast", 0.0, "ins / gyro / accel slices are the expressions proved to partition [0, n_states) in C08.joint: %s" % s1)
+    # placement of the sensor-model blocks for EVERY pair of model sizes 0..12 (complete enumeration: MAX_STATES = 12);
+    # the INS block does not depend on those sizes (proved symbolically above)
+    bad = []
+    cfg_by_size = {}
+    import itertools
+    for nb in range(4):
+        for nsm in range(10):
+            bsd = [1.0 if a < nb else 0 for a in range(3)]
+            sm = np.zeros(9)
+            sm[:nsm] = 0.01
+            cfg_by_size[nb + nsm] = dict(bias_sd=bsd, scale_misal_sd=sm.reshape(3, 3))
+    pva = pd.Series([50.0, 30.0, 100.0, 3.0, -2.0, 0.5, 1.0, -2.0, 40.0], index=NAMES)
+    n_cases = 0
+    for wa in (True, False):
+        em = EMm.InsErrorModel(wa)
+        n = em.n_states
+        for ng in range(13):
+            for na in range(13):
+                gm, am = IS.EstimationModel(**cfg_by_size[ng]), IS.EstimationModel(**cfg_by_size[na])
+                gm.P[...] = np.diag(np.arange(1, ng + 1) * 1.0) if ng else gm.P
+                am.P[...] = np.diag(np.arange(1, na + 1) * 10.0) if na else am.P
+                P = F._initialize_covariance(pva, 1.0, 0.1, 0.1, 0.5, em, gm, am)
+                n_cases += 1
+                ok = (P.shape == (n + ng + na,) * 2 and np.array_equal(P[n:n + ng, n:n + ng], gm.P) and np.array_equal(P[n + ng:, n + ng:], am.P)
+                      and not P[:n, n:].any() and not P[n:, :n].any() and not P[n:n + ng, n + ng:].any() and not P[n + ng:, n:n + ng].any())
+                if not ok:
+                    bad.append((wa, ng, na))
+    ctx.ob("C11.init.P0.block_placement_all_sizes", "c", not bad, "exhaustive(%d size pairs)" % n_cases, 0.0,
+           "gyro / accel covariance blocks placed contiguously after the INS block, off-diagonal blocks zero, for every pair of model sizes 0..12 and both altitude modes"
+           if not bad else "fails for (with_altitude, n_gyro, n_accel) = %s" % (bad[:3],), cex=None if not bad else dict(cases=bad[:5]), native=None if not bad else dict(reproduced=True))
 
 
 def _result(ctx, py):
